@@ -77,6 +77,20 @@ def run_unit(unit, ctx):
     defn = gen_defn(rng, i, ctx["tier"], wraps=wraps)
     while not defn["sensors"]:
         defn = gen_defn(rng, i, ctx["tier"], wraps=wraps)
+    if wraps:
+        # make sure of it: an angle folded into range in one update and one reading, with an inner argument
+        # that appears nowhere else (so that it is still intact when the post-CSE simplification runs) and
+        # that leaves the principal branch for ordinary state values
+        from .. import expr as E
+
+        s0 = rng.choice(defn["state"])
+        defn["model"][s0] = ["add", defn["model"][s0],
+                             ["mul", E.S(defn["dt"]), [rng.choice(["asinsin", "atantan"]), ["mul", E.C(3), E.S(rng.choice(defn["state"]))]]]]
+        sn0 = rng.choice(sorted(defn["sensors"]))
+        rn0 = rng.choice(sorted(defn["sensors"][sn0]))
+        defn["sensors"][sn0][rn0] = ["add", defn["sensors"][sn0][rn0],
+                                     [rng.choice(["acoscos", "asinsin"]), ["add", ["mul", E.C(2), E.S(rng.choice(defn["state"]))], E.F(0.25)]]]
+        defn["model_as_text"] = []
     if any(w_ in __import__("json").dumps([defn["model"], defn["sensors"]]) for w_ in ("asinsin", "acoscos", "atantan")):
         R.stats.inc("programs_with_angle_wrap_idioms")
     k = rng.choice([None, 2.0, 5.0])
